@@ -209,6 +209,7 @@ class FieldSelections(Rule):
 
 
 AllExecutable = ForallList('definition_is_executable', lambda d: inst(d, 'ExecutableDefinitionNode'))
+NotExecutable = ForallList('definition_is_not_executable', lambda d: z3.Not(inst(d, 'ExecutableDefinitionNode')))
 
 
 class ExecutableDefinitions(Rule):
@@ -216,6 +217,8 @@ class ExecutableDefinitions(Rule):
     key = Q + 'executable_definitions.py::ExecutableDefinition.validate'
     params = ['self', 'definitions', 'path']
     self_class = 'ExecutableDefinition'
+
+    filter_specs = {0: (NotExecutable, AllExecutable, lambda en: [])}
 
     def pre(self, A, st):
         return self.rule_pre(A) + [('definitions', z3.And(V.is_List(A['definitions']), AllAstNodes(V.items(A['definitions']))))]
